@@ -195,18 +195,29 @@ class TU:
     def __init__(self):
         self.lines = []
         self.tags = {}
+        self.owner = {}       # line -> name of the contract the clause belongs to
+        self.cur = None
 
     def add(self, text, tag=None):
+        m = re.match(r'^[\w\s\*]+?\b(\w+)\(', text)
+        if m and not text.startswith('__CPROVER') and not text.startswith(' ') and not text.startswith('#') and '{' not in text:
+            self.cur = m.group(1)
         for l in text.split('\n'):
             self.lines.append(l)
             if tag:
                 self.tags[len(self.lines)] = tag
+                self.owner[len(self.lines)] = self.cur
 
     def extend(self, other):
         off = len(self.lines)
         self.lines.extend(other.lines)
         for k, v in other.tags.items():
             self.tags[k + off] = v
+        for k, v in other.owner.items():
+            self.owner[k + off] = v
+
+    def tags_of(self, contract):
+        return {k: v for k, v in self.tags.items() if self.owner.get(k) == contract}
 
     def text(self):
         return '\n'.join(self.lines) + '\n'
@@ -235,17 +246,21 @@ def canon_image(f):
     return img
 
 
-def format_contracts(model, f, enforced=None):
+def format_contracts(model, f, enforced=None, needed=None):
     """All contracts of one format as a TU fragment.  Witness bindings (vp_w*) are emitted only
     for the contract being enforced: in replace mode a requires clause is an assertion."""
     tu = TU()
     def B(name, txt):
         return txt if name == enforced else '1'
+    def want(*names):
+        return needed is None or any(n in needed for n in names)
     tu.add('/* ---- generated contracts: format %s (%s), oracle header length %d ---- */' % (f.key, f.P, f.H))
     tu.add('#include "%s"' % f.spec['header'])
     H, T, E = f.H, f.T, f.E
     for (p, row) in f.getters:
         s, n = f.rows[row]
+        if not want(p['name']):
+            continue
         tu.add('%s %s(%s* pdu)' % (p['ret'], p['name'], T))
         tu.add('__CPROVER_requires(pdu == NULL || (__CPROVER_is_fresh(pdu, %d) && %s))' % (H, B(p['name'], bind_hdr(H))))
         tu.add('__CPROVER_assigns()')
@@ -255,19 +270,22 @@ def format_contracts(model, f, enforced=None):
         tu.add(';')
     # GetField
     p = f.getfield
-    tu.add('%s %s(%s* pdu, %s field)' % (p['ret'], p['name'], T, E))
-    tu.add('__CPROVER_requires(%s && (pdu == NULL || (__CPROVER_is_fresh(pdu, %d) && %s)))' % (B(p['name'], 'vp_wf == (unsigned)field'), H, B(p['name'], bind_hdr(H))))
-    tu.add('__CPROVER_assigns()')
-    tu.add('__CPROVER_ensures(pdu == NULL ==> __CPROVER_return_value == 0)', 'C11:null-read-returns-0')
-    tu.add('__CPROVER_ensures((unsigned)field >= (unsigned)%s ==> __CPROVER_return_value == 0)' % f.MAX, 'C11:id-out-of-range-reads-0')
-    for ename, (row, s, n) in f.enum_rows.items():
-        tu.add('__CPROVER_ensures((pdu != NULL && field == %s) ==> __CPROVER_return_value == vp_get_bits(pdu->header, %d, %d))'
-               % (ename, s, n), 'C01:getfield-value(%s=%s %d/%d)' % (ename, row, s, n))
-    tu.add(';')
+    if want(p['name']):
+      tu.add('%s %s(%s* pdu, %s field)' % (p['ret'], p['name'], T, E))
+      tu.add('__CPROVER_requires(%s && (pdu == NULL || (__CPROVER_is_fresh(pdu, %d) && %s)))' % (B(p['name'], 'vp_wf == (unsigned)field'), H, B(p['name'], bind_hdr(H))))
+      tu.add('__CPROVER_assigns()')
+      tu.add('__CPROVER_ensures(pdu == NULL ==> __CPROVER_return_value == 0)', 'C11:null-read-returns-0')
+      tu.add('__CPROVER_ensures((unsigned)field >= (unsigned)%s ==> __CPROVER_return_value == 0)' % f.MAX, 'C11:id-out-of-range-reads-0')
+      for ename, (row, s, n) in f.enum_rows.items():
+          tu.add('__CPROVER_ensures((pdu != NULL && field == %s) ==> __CPROVER_return_value == vp_get_bits(pdu->header, %d, %d))'
+                 % (ename, s, n), 'C01:getfield-value(%s=%s %d/%d)' % (ename, row, s, n))
+      tu.add(';')
     # setters
     for (p, row) in f.setters:
         s, n = f.rows[row]
         vt = p['params'][1]['type']
+        if not want(p['name'], 'vp_null_' + p['name'], 'vp_fit_' + p['name']):
+            continue
         tu.add('void %s(%s* pdu, %s value)' % (p['name'], T, vt))
         tu.add('__CPROVER_requires(%s && __CPROVER_is_fresh(pdu, %d) && %s)' % (B(p['name'], 'vp_wv == (uint64_t)value'), H, B(p['name'], bind_hdr(H))))
         tu.add('__CPROVER_assigns(__CPROVER_object_upto(pdu->header, %d))' % H)
@@ -285,19 +303,20 @@ def format_contracts(model, f, enforced=None):
         tu.add(';')
     # SetField
     p = f.setfield
-    tu.add('void %s(%s* pdu, %s field, uint64_t value)' % (p['name'], T, E))
-    tu.add('__CPROVER_requires(%s && (unsigned)field < (unsigned)%s && __CPROVER_is_fresh(pdu, %d) && %s)'
-           % (B(p['name'], 'vp_wf == (unsigned)field && vp_wv == value'), f.MAX, H, B(p['name'], bind_hdr(H))))
-    tu.add('__CPROVER_assigns(__CPROVER_object_upto(pdu->header, %d))' % H)
-    for ename, (row, s, n) in f.enum_rows.items():
-        put_clauses(tu, H, s, n, 'value', 'C02:setfield-bytes(%s=%s %d/%d)' % (ename, row, s, n), guard='field == %s' % ename)
-    tu.add(';')
-    tu.add('void vp_inactive_%s(%s* pdu, %s field, uint64_t value)' % (p['name'], T, E))
-    tu.add('__CPROVER_requires(%s && (pdu == NULL || __CPROVER_is_fresh(pdu, %d)) && (pdu == NULL || (unsigned)field >= (unsigned)%s))' % (B('vp_inactive_' + p['name'], 'vp_wf == (unsigned)field'), H, f.MAX))
-    tu.add('__CPROVER_assigns()')
-    tu.add(';')
+    if want(p['name'], 'vp_inactive_' + p['name']):
+      tu.add('void %s(%s* pdu, %s field, uint64_t value)' % (p['name'], T, E))
+      tu.add('__CPROVER_requires(%s && (unsigned)field < (unsigned)%s && __CPROVER_is_fresh(pdu, %d) && %s)'
+             % (B(p['name'], 'vp_wf == (unsigned)field && vp_wv == value'), f.MAX, H, B(p['name'], bind_hdr(H))))
+      tu.add('__CPROVER_assigns(__CPROVER_object_upto(pdu->header, %d))' % H)
+      for ename, (row, s, n) in f.enum_rows.items():
+          put_clauses(tu, H, s, n, 'value', 'C02:setfield-bytes(%s=%s %d/%d)' % (ename, row, s, n), guard='field == %s' % ename)
+      tu.add(';')
+      tu.add('void vp_inactive_%s(%s* pdu, %s field, uint64_t value)' % (p['name'], T, E))
+      tu.add('__CPROVER_requires(%s && (pdu == NULL || __CPROVER_is_fresh(pdu, %d)) && (pdu == NULL || (unsigned)field >= (unsigned)%s))' % (B('vp_inactive_' + p['name'], 'vp_wf == (unsigned)field'), H, f.MAX))
+      tu.add('__CPROVER_assigns()')
+      tu.add(';')
     # Init
-    if f.init is not None:
+    if f.init is not None and want(f.init['name'], 'vp_null_' + f.init['name']):
         img = canon_image(f)
         p = f.init
         tu.add('void %s(%s* pdu)' % (p['name'], T))
@@ -418,7 +437,11 @@ def mk_job(model, f, name, enforce, replace, call, decls, kind, owners, function
     tu = TU()
     tu.add(PRELUDE)
     enf = enforce.split('/')[-1] if enforce else None
-    tu.extend(format_contracts(model, f, enforced=enf))
+    needed = set()
+    for x in [enforce] + list(replace):
+        if x:
+            needed.update(x.split('/'))
+    tu.extend(format_contracts(model, f, enforced=enf, needed=needed))
     if extra_tu is not None:
         tu.extend(extra_tu(enf) if callable(extra_tu) else extra_tu)
     tu.add('void harness(void)\n{')
@@ -427,7 +450,7 @@ def mk_job(model, f, name, enforce, replace, call, decls, kind, owners, function
     tu.add('    ' + call)
     tu.add('    VP_CANARY();\n}')
     return Job(name=name, src=tu.text(), sources=[f.spec['source'], 'src/avtp/Utils.c'], enforce=enforce,
-               replace=replace, owners=owners, clause_map=tu.tags, function=function, kind=kind,
+               replace=replace, owners=owners, clause_map=tu.tags_of(enf), function=function, kind=kind,
                replay=replay, config=config, timeout=300)
 
 
